@@ -690,8 +690,12 @@ pub fn check_main(def: &CheckDef, tier: Tier) -> i32 {
         }
         // confirm determinism: replay twice in fresh processes
         let t = Duration::from_secs(def.hang_s.max(1) * 3 + 20);
-        let a = run_only(def, tier, v.case_index, t);
-        let b = run_only(def, tier, v.case_index, t);
+        // (a violation found by a free-running *sampling* pass is nondeterminism of okane itself by definition:
+        // it is reported as found and exempt from the replay-equality requirement)
+        let sampling = sig.starts_with("free-running/");
+        let verdict_line = |x: &(String, String)| -> (String, String) { (x.0.clone(), x.1.lines().find(|l| l.starts_with("verdict:")).unwrap_or("").to_string()) };
+        let a = if sampling { ("".into(), "".into()) } else { verdict_line(&run_only(def, tier, v.case_index, t)) };
+        let b = if sampling { ("".into(), "".into()) } else { verdict_line(&run_only(def, tier, v.case_index, t)) };
         if a != b {
             eprintln!("replay of case {} is not deterministic:\n--1-- {:?}\n--2-- {:?}", v.case_index, a, b);
             machinery_error("non-deterministic replay: harness does not own all nondeterminism");
